@@ -1170,7 +1170,7 @@ def canaries_c04(programs):
 
 # ---------------------------------------------------------------------------------
 # C06
-DBG_METHODS = ["crate::m::fmt_a", "crate::m::fmt_b"]
+DBG_METHODS = ["crate::m::fmt_a", "crate::m::fmt_b", "crate::m::fmt_g"]     # fmt_g is generic over the value type
 
 
 def dbg_type_meta(name, named_field, form):
@@ -1197,7 +1197,7 @@ def dbg_field(name, ty, a, form, struct_style):
     attrs = []
     if a == "m":
         # custom method on a u8 field (caller sets the field type)
-        m = DBG_METHODS[form % 2]
+        m = DBG_METHODS[form % 3]
         sem["method"] = m
         attrs.append("Debug(%s)" % spell_param("method", m, form))
         return Field(name, "u8", attrs=attrs, debug=sem)
@@ -1569,6 +1569,14 @@ def c14(tier, seed):
         P = add(Program(c.pid(), "struct", "S", [Variant(None, "named", fs)], [newsp], focus={"Default"}, note="C14 Default `%s` / `%s`" % (sp, newsp),
                         default={"new": newsp != "Default"}))
         P.tags["mk"] = "// no inputs"
+    # the literal `false` (and `true`) as a VALUE, on a type where it is not the type's own default: every spelling keeps it
+    for j, sp in enumerate(["Default = %s", "Default(expression = %s)", "Default(expr = %s)", "Default(expression(%s))", "Default(expr(%s))"]):
+        for lit in ("false", "true"):
+            fs = [Field("a", "Option<bool>", attrs=[sp % lit], default={"src": lit, "expected": "Some(%s)" % lit, "verus": False}),
+                  Field("b", "u8", default={"src": None, "expected": "0u8", "verus": True})]
+            P = add(Program(c.pid(), "struct", "S", [Variant(None, "named" if j % 2 else "tuple", fs if j % 2 else [Field(None, f.ty, attrs=f.attrs, **f.sem) for f in fs])],
+                            ["Default"], focus={"Default"}, note="C14 Default `%s` on Option<bool>" % (sp % lit), default={"new": False}))
+            P.tags["mk"] = "// no inputs"
     for j, tl in enumerate(["Default(expression = S { a: 3, b: true })", "Default(expr = S { a: 3, b: true })", "Default(expression(S { a: 3, b: true }))", "Default(expr(S { a: 3, b: true }))",
                             "Default(expression = S { a: 3, b: true }, new)", "Default(new = true, expr(S { a: 3, b: true }))", "Default(expr = S { a: 3, b: true }, new(true))",
                             "Default(new, expression(S { a: 3, b: true }))", "Default(new = false, expr = S { a: 3, b: true })", "Default(expression(S { a: 3, b: true }), new(false))"]):
@@ -2219,6 +2227,18 @@ def wide(prop):
                 P = Program(pid(), "enum", "E", vs, traits, focus=set(traits), note="enum with reference designated fields (%s) in %s variants" % (rty, "all" if allref else "some"))
                 P.tags["no_verus"] = "reference fields: Kani on the concrete layout"
                 out.append(P)
+        # smart-pointer designated fields: Target is the field's own type (Box<u8>), &*x is the Box, not what it points to
+        BX = "Box<u8>"
+        vs = [Variant("V0", "tuple", [Field(None, BX, deref={"mark": True}, deref_mut={"mark": True})]),
+              Variant("V1", "tuple", [Field(None, "u8", deref={}, deref_mut={}), Field(None, BX, attrs=["Deref", "DerefMut"], deref={"mark": True}, deref_mut={"mark": True}), Field(None, "u8", deref={}, deref_mut={})]),
+              Variant("V2", "named", [Field("a", "u8", deref={}, deref_mut={}), Field("b", BX, attrs=["DerefMut", "Deref"], deref={"mark": True}, deref_mut={"mark": True})])]
+        P = Program(pid(), "enum", "E", vs, ["Deref", "DerefMut"], focus={"Deref", "DerefMut"}, note="wide: Box<u8> designated fields (enum)", deref={"target_inst": BX})
+        P.tags["no_verus"] = "Box fields: Kani on the concrete layout"
+        out.append(P)
+        fs = [Field(None, "u8", deref={}), Field(None, "&'static Box<u8>", attrs=["Deref"], deref={"mark": True}), Field(None, "u8", deref={})]
+        P = Program(pid(), "struct", "S", [Variant(None, "tuple", fs)], ["Deref"], focus={"Deref"}, note="wide: &Box<u8> designated field (struct)", deref={"target_inst": BX})
+        P.tags["no_verus"] = "Box fields: Kani on the concrete layout"
+        out.append(P)
         # PhantomData (and other non-target) fields declared before the designated field: positions are declaration positions
         PH = "core::marker::PhantomData<u16>"
         for shape in ("tuple", "named"):
@@ -2278,6 +2298,20 @@ def wide(prop):
                         else:
                             fs.append(Field(LONG[i] if shape == "named" else None, "u8", into={"marks": {}}))
                     out.append(into_program(pid(), "struct", [Variant(None, shape, fs)], ["u16"], "wide struct %s n=%d Into(u16)@%d" % (shape, n, at), 0))
+        # the same inside enum variants (the designated position in the second half but not last, same-typed neighbours)
+        for n, at, tgt in ((4, 2, "u8"), (5, 3, "u16"), (4, 1, "u8"), (6, 4, "u16")):
+            vs = []
+            for vi, shape in enumerate(("tuple", "named")):
+                fs = []
+                for i in range(n):
+                    if i == at:
+                        use_m = (vi + n) % 2 == 0 and tgt == "u16"
+                        sp, m = into_mark(tgt, "u8", use_m, k[0] + vi)
+                        fs.append(Field(LONG[i] if shape == "named" else None, "u8", attrs=[sp], into={"marks": {tgt: m}}))
+                    else:
+                        fs.append(Field(LONG[i] if shape == "named" else None, "u8", into={"marks": {}}))
+                vs.append(Variant("V%d" % vi, shape, fs))
+            out.append(into_program(pid(), "enum", vs, [tgt], "wide enum variants n=%d Into(%s)@%d" % (n, tgt, at), 0))
     if prop == "C05":
         # more variants than a byte can number: a tag narrowed to u8 makes variants i and i+256 collide
         vs = []
